@@ -248,6 +248,26 @@ ROUND6 = {
  'C19': 'hierarchy predicates reach no structural comparison (B1); clean(): all positive verdicts consult every attribute, descent before verdict (C1).',
  'C20': 'dependencies resolved through a one-key-per-variable map (D1), cleaned unconditionally (D2), recorded external dependencies re-resolved by class (D3).',
 }
+ROUND7 = {
+ 'C01': 'count/index child helpers use the same predicate (A2); branches of the validator that admit child elements validate them (A1); standard-name precedence in guard-less walks over unit references (U1); invariants inherited through call sites of split-off helpers.',
+ 'C02': 'regex repetition depth (C01.X6 borrowed).',
+ 'C03': 'dependencies resolved per variable (C20.D1 borrowed).',
+ 'C04': 'per-call state of the validator (H1); binary search only over a sorted range (U1, fixture).',
+ 'C05': 'equivalence alone decides a hit in internalVariable() (K1); append-only containers asked for their size across iterations (S1).',
+ 'C06': 'unique keys in the name-clash map (N1); creation-to-exit must-pass of the import loop (G1).',
+ 'C07': 'no inserting subscript on the importer library (M1); fail-log candidates adopt split-off helpers.',
+ 'C08': 'no constant non-zero scaling factor (G3).',
+ 'C09': 'containers reached through a local reference (P3); exemptions follow helpers split off from the exempt function (Q1).',
+ 'C12': 'library queries do not insert (C07.M1 borrowed); site names of known findings stable under helper extraction (G1).',
+ 'C13': 'a value-returning walker uses what the descent returns (W1); index rebuild recognised wherever it is written (R2).',
+ 'C14': 'fix-up loops after the encapsulation reach the whole tree (T1); the 1.x attribute collector removes nothing (M2).',
+ 'C15': 'replacing the annotated model invalidates the index (C13.R2 borrowed); forwarded issue descriptions recognised structurally (I2).',
+ 'C16': 'conversion behind its recogniser wherever it is written (U2).',
+ 'C17': '"=" versus "==" decided by <math> alone (E1); early returns in emitting functions imply that no later helper is needed (N4, truth table).',
+ 'C18': 'no ownership test in the network search (F1); const queries write nothing, also through a local pimpl alias (Q1).',
+ 'C19': 'every equivalence is looked at unless both flags are known (I6); hasUnlinkedUnits answers only what linkUnits acts on (U1); aggregate-agnostic result flags (I1).',
+ 'C20': 'two-slot profile strings: setter and getter select the same member (S1); per-call state of the generator (H1).',
+}
 
 NOT_YET = {}
 
@@ -269,7 +289,7 @@ def main():
                 'evidence_file': 'evidence/%s.json' % pid,
                 'replay_cmd_template': './check --replay {path}',
                 'engine': 'sa',
-                'level_claimed': {'category': 'other', 'text': c['text'] + (' Added after round-3 seeding: ' + ROUND3[pid] if pid in ROUND3 else '') + (' Added after round-4 seeding: ' + ROUND4[pid] if pid in ROUND4 else '') + (' Added after round-5 seeding and the independent false-alarm study: ' + ROUND5[pid] if pid in ROUND5 else '') + (' Added after round-6 seeding and the second false-alarm study: ' + ROUND6[pid] if pid in ROUND6 else ''), 'design_ref': c['ref']},
+                'level_claimed': {'category': 'other', 'text': c['text'] + (' Added after round-3 seeding: ' + ROUND3[pid] if pid in ROUND3 else '') + (' Added after round-4 seeding: ' + ROUND4[pid] if pid in ROUND4 else '') + (' Added after round-5 seeding and the independent false-alarm study: ' + ROUND5[pid] if pid in ROUND5 else '') + (' Added after round-6 seeding and the second false-alarm study: ' + ROUND6[pid] if pid in ROUND6 else '') + (' Added after round-7 seeding and the third false-alarm study (restructurings): ' + ROUND7[pid] if pid in ROUND7 else ''), 'design_ref': c['ref']},
                 'level_note': c['note'],
                 'technique': c['technique'],
             })
